@@ -1,0 +1,103 @@
+//go:build verif
+
+package diam
+
+import (
+	"net"
+	"sync"
+	"time"
+
+	"github.com/ishidawataru/sctp"
+)
+
+// VerifSCTPBackend is an in-memory stand-in for the kernel SCTP socket,
+// used by the deterministic simulation harness (build tag verif only).
+type VerifSCTPBackend interface {
+	SCTPRead(b []byte) (int, *sctp.SndRcvInfo, error)
+	SCTPWrite(b []byte, info *sctp.SndRcvInfo) (int, error)
+	Close() error
+	LocalAddr() net.Addr
+	RemoteAddr() net.Addr
+}
+
+var verifSCTPBackends sync.Map // *SCTPConn -> VerifSCTPBackend
+
+// NewVerifSCTPConn returns a diam.SCTPConn whose socket calls are served
+// by the given backend instead of the embedded *sctp.SCTPConn.
+func NewVerifSCTPConn(backend VerifSCTPBackend) MultistreamConn {
+	msc := &SCTPConn{s: &streams{}, currStream: InvalidStreamID, writerStream: InvalidStreamID}
+	verifSCTPBackends.Store(msc, backend)
+	return msc
+}
+
+func (msc *SCTPConn) verifBackend() VerifSCTPBackend {
+	if v, ok := verifSCTPBackends.Load(msc); ok {
+		return v.(VerifSCTPBackend)
+	}
+	return nil
+}
+
+// The methods below shadow the embedded socket's methods of the same name.
+
+func (msc *SCTPConn) SCTPRead(b []byte) (int, *sctp.SndRcvInfo, error) {
+	if be := msc.verifBackend(); be != nil {
+		return be.SCTPRead(b)
+	}
+	return msc.SCTPConn.SCTPRead(b)
+}
+
+func (msc *SCTPConn) SCTPWrite(b []byte, info *sctp.SndRcvInfo) (int, error) {
+	if be := msc.verifBackend(); be != nil {
+		return be.SCTPWrite(b, info)
+	}
+	return msc.SCTPConn.SCTPWrite(b, info)
+}
+
+func (msc *SCTPConn) Close() error {
+	if be := msc.verifBackend(); be != nil {
+		return be.Close()
+	}
+	return msc.SCTPConn.Close()
+}
+
+func (msc *SCTPConn) LocalAddr() net.Addr {
+	if be := msc.verifBackend(); be != nil {
+		return be.LocalAddr()
+	}
+	return msc.SCTPConn.LocalAddr()
+}
+
+func (msc *SCTPConn) RemoteAddr() net.Addr {
+	if be := msc.verifBackend(); be != nil {
+		return be.RemoteAddr()
+	}
+	return msc.SCTPConn.RemoteAddr()
+}
+
+func (msc *SCTPConn) SetDeadline(t time.Time) error {
+	if msc.verifBackend() != nil {
+		return nil
+	}
+	return msc.SCTPConn.SetDeadline(t)
+}
+
+func (msc *SCTPConn) SetReadDeadline(t time.Time) error {
+	if msc.verifBackend() != nil {
+		return nil
+	}
+	return msc.SCTPConn.SetReadDeadline(t)
+}
+
+func (msc *SCTPConn) SetWriteDeadline(t time.Time) error {
+	if msc.verifBackend() != nil {
+		return nil
+	}
+	return msc.SCTPConn.SetWriteDeadline(t)
+}
+
+// VerifSCTPRelease drops the backend association of a finished connection.
+func VerifSCTPRelease(c MultistreamConn) {
+	if msc, ok := c.(*SCTPConn); ok {
+		verifSCTPBackends.Delete(msc)
+	}
+}
